@@ -205,6 +205,7 @@ struct Summary {
     nontrivial_runs: u64,
     oracle_evals: u64,
     desyncs: u64,
+    violating_runs: u64,
     desync_samples: Vec<String>,
     violations: Vec<ReplayFile>,
     counters: BTreeMap<String, u64>,
@@ -281,7 +282,7 @@ fn main() {
             let to: u64 = arg(&args, "--to").unwrap_or("100").parse().unwrap();
             let stride: u64 = arg(&args, "--stride").unwrap_or("1").parse().unwrap();
             let deadline_ms: u64 = arg(&args, "--deadline-ms").unwrap_or("0").parse().unwrap();
-            let max_violations: usize = arg(&args, "--max-violations").unwrap_or("3").parse().unwrap();
+            let max_violations: usize = arg(&args, "--max-violations").unwrap_or("4").parse().unwrap();
             if let Err(e) = model::self_test(false) {
                 eprintln!("model self-test failed: {}", e);
                 std::process::exit(2);
@@ -327,6 +328,13 @@ fn main() {
                 }
                 sum.interleavings.extend(o.interleavings.iter());
                 if let Some(v) = o.violation {
+                    sum.violating_runs += 1;
+                    if sum.violations.iter().any(|x| x.class == v.class) {
+                        // one replay per class is kept; the batch goes on so that a known class
+                        // cannot hide a different one
+                        index += stride;
+                        continue;
+                    }
                     let mut plan = plan;
                     if let Some(s) = o.schedule {
                         plan.schedule = s;
